@@ -15,19 +15,41 @@ def preInstall (filter : Filter) (w : World) : World :=
 def atReturn (filter : Filter) (w : World) : World :=
   if filter.noNewPrivs = true then unlockOSThread w else w
 
+/-- the fault in which `LoadFilter` gives up before the seccomp call: no_new_privs is requested on a
+    kernel whose `prctl` refuses the option -/
+def nnpFault (filter : Filter) (w : World) : Prop := filter.noNewPrivs = true ∧ w.nnpAvailable = false
+
+instance (filter : Filter) (w : World) : Decidable (nnpFault filter w) := by unfold nnpFault; infer_instance
+
 theorem gen_setNoNewPrivs (U : Unsupported) (w : World) :
-    Gen.setNoNewPrivs U w = (GoErr.nil, (sysPrctl 38 1 0 0 0 w).2.2) := by
+    Gen.setNoNewPrivs U w =
+      (if w.nnpAvailable = true then GoErr.nil else GoErr.errno 22, (sysPrctl 38 1 0 0 0 w).2.2) := by
   unfold Gen.setNoNewPrivs Gen.prctl
   simp only [List.length_singleton, show ¬ (1 > 4) from by decide, if_false]
   have : copyInto (List.replicate 4 0) [1] = [1, 0, 0, 0] := by decide
   simp only [this, List.getD_cons_zero, List.getD_cons_succ]
-  rw [sysPrctl_nnp]
+  cases h : w.nnpAvailable
+  · rw [sysPrctl_nnp_fault w h]; simp [EINVAL]
+  · rw [sysPrctl_nnp w h]; simp
+
+/-- **The fault case in one equation**: the `prctl` error is wrapped and returned, the deferred unlock
+    runs, and `seccomp` is never called. -/
+theorem gen_loadFilter_fault (U : Unsupported) (filter : Filter) (p : Prog) (hp : filter.policy = .prog p) (w : World)
+    (hf : nnpFault filter w) :
+    Gen.loadFilter U filter w =
+      (GoErr.wrapped "failed to set no_new_privs with prctl: %w" (GoErr.errno 22), atReturn filter (preInstall filter w)) := by
+  obtain ⟨hn, ha⟩ := hf
+  unfold Gen.loadFilter
+  simp only [hp, policyAssemble, bpfAssemble, sockFilter, ne_eq, not_true_eq_false, if_false, preInstall, atReturn,
+    hn, if_true, gen_setNoNewPrivs, show (lockOSThread w).nnpAvailable = w.nnpAvailable from rfl, ha,
+    Bool.false_eq_true]
   simp
 
 /-- **`LoadFilter` in one equation** (for a policy that assembles and encodes): the pre-install world,
     one `seccomp()` call with the filter's own flag word and program, every non-nil result wrapped,
     then the deferred unlock. -/
-theorem gen_loadFilter_prog (U : Unsupported) (filter : Filter) (p : Prog) (hp : filter.policy = .prog p) (w : World) :
+theorem gen_loadFilter_prog (U : Unsupported) (filter : Filter) (p : Prog) (hp : filter.policy = .prog p) (w : World)
+    (hnf : ¬ nnpFault filter w) :
     ∃ msg : GoErr → GoErr, (∀ e, msg e ≠ GoErr.nil) ∧
     Gen.loadFilter U filter w =
       (let r := Gen.seccomp U 1 filter.flag (mkFprog (.prog p)) (preInstall filter w)
@@ -38,7 +60,12 @@ theorem gen_loadFilter_prog (U : Unsupported) (filter : Filter) (p : Prog) (hp :
   unfold Gen.loadFilter
   simp only [hp, policyAssemble, bpfAssemble, sockFilter, ne_eq, not_true_eq_false, if_false, preInstall, atReturn]
   by_cases hn : filter.noNewPrivs = true
-  · simp only [hn, if_true, gen_setNoNewPrivs, not_true_eq_false, if_false]
+  · have ha : w.nnpAvailable = true := by
+      cases h : w.nnpAvailable
+      · exact absurd ⟨hn, h⟩ hnf
+      · rfl
+    simp only [hn, if_true, gen_setNoNewPrivs, show (lockOSThread w).nnpAvailable = w.nnpAvailable from rfl, ha,
+      not_true_eq_false, if_false]
     generalize Gen.seccomp U 1 filter.flag (mkFprog (PolicyOutcome.prog p)) (sysPrctl 38 1 0 0 0 (lockOSThread w)).2.2 = r
     obtain ⟨err, w2⟩ := r
     simp only
@@ -79,50 +106,65 @@ theorem lockOSThread_sched (w : World) : schedStep (lockOSThread w) = lockOSThre
   schedStep_locked _ (by simp [lockOSThread])
 
 /-- the pre-install world when no_new_privs is requested, explicitly -/
-theorem preInstall_nnp (filter : Filter) (w : World) (hn : filter.noNewPrivs = true) :
+theorem preInstall_nnp (filter : Filter) (w : World) (hn : filter.noNewPrivs = true) (ha : w.nnpAvailable = true) :
     preInstall filter w =
       ({ lockOSThread w with log := .prctl w.cur 38 1 0 0 0 :: w.log } : World).upd w.cur { w.thr w.cur with nnp := true } := by
-  simp only [preInstall, hn, if_true, sysPrctl_nnp, lockOSThread_sched]
+  simp only [preInstall, hn, if_true, sysPrctl_nnp _ (show (lockOSThread w).nnpAvailable = true from ha), lockOSThread_sched]
+  rfl
+
+/-- … and when the kernel refuses the option: the lock and the logged call, nothing else -/
+theorem preInstall_fault (filter : Filter) (w : World) (hn : filter.noNewPrivs = true) (ha : w.nnpAvailable = false) :
+    preInstall filter w = { lockOSThread w with log := .prctl w.cur 38 1 0 0 0 :: w.log } := by
+  simp only [preInstall, hn, if_true, sysPrctl_nnp_fault _ (show (lockOSThread w).nnpAvailable = false from ha), lockOSThread_sched]
   rfl
 
 theorem preInstall_off (filter : Filter) (w : World) (hn : filter.noNewPrivs = false) : preInstall filter w = w := by
   simp [preInstall, hn]
 
-theorem preInstall_live (filter : Filter) (w : World) : (preInstall filter w).live = w.live := by
+/-- the three shapes of the pre-install world -/
+theorem preInstall_cases (filter : Filter) (w : World) :
+    preInstall filter w = w ∨
+    preInstall filter w = { lockOSThread w with log := .prctl w.cur 38 1 0 0 0 :: w.log } ∨
+    preInstall filter w =
+      ({ lockOSThread w with log := .prctl w.cur 38 1 0 0 0 :: w.log } : World).upd w.cur { w.thr w.cur with nnp := true } := by
   cases hn : filter.noNewPrivs
-  · rw [preInstall_off _ _ hn]
-  · rw [preInstall_nnp _ _ hn]; rfl
+  · exact .inl (preInstall_off _ _ hn)
+  · cases ha : w.nnpAvailable
+    · exact .inr (.inl (preInstall_fault _ _ hn ha))
+    · exact .inr (.inr (preInstall_nnp _ _ hn ha))
+
+theorem preInstall_live (filter : Filter) (w : World) : (preInstall filter w).live = w.live := by
+  rcases preInstall_cases filter w with h | h | h <;> rw [h] <;> rfl
 
 theorem preInstall_cur (filter : Filter) (w : World) : (preInstall filter w).cur = w.cur := by
-  cases hn : filter.noNewPrivs
-  · rw [preInstall_off _ _ hn]
-  · rw [preInstall_nnp _ _ hn]; rfl
+  rcases preInstall_cases filter w with h | h | h <;> rw [h] <;> rfl
 
 theorem preInstall_priv (filter : Filter) (w : World) : (preInstall filter w).privileged = w.privileged := by
-  cases hn : filter.noNewPrivs
-  · rw [preInstall_off _ _ hn]
-  · rw [preInstall_nnp _ _ hn]; rfl
+  rcases preInstall_cases filter w with h | h | h <;> rw [h] <;> rfl
 
 theorem preInstall_avail (filter : Filter) (w : World) : (preInstall filter w).seccompAvailable = w.seccompAvailable := by
-  cases hn : filter.noNewPrivs
-  · rw [preInstall_off _ _ hn]
-  · rw [preInstall_nnp _ _ hn]; rfl
+  rcases preInstall_cases filter w with h | h | h <;> rw [h] <;> rfl
 
 theorem preInstall_filters (filter : Filter) (w : World) (t : Tid) :
     ((preInstall filter w).thr t).filters = (w.thr t).filters := by
-  cases hn : filter.noNewPrivs
-  · rw [preInstall_off _ _ hn]
-  · rw [preInstall_nnp _ _ hn]
-    by_cases ht : t = w.cur
+  rcases preInstall_cases filter w with h | h | h <;> rw [h]
+  · rfl
+  · by_cases ht : t = w.cur
     · subst ht; simp
     · rw [World.upd_thr_ne _ _ _ _ ht]; rfl
+
+/-- the fault leaves every thread exactly as it was (in particular no no_new_privs bit appears) -/
+theorem preInstall_thr_fault (filter : Filter) (w : World) (hf : nnpFault filter w) :
+    (preInstall filter w).thr = w.thr := by
+  rw [preInstall_fault _ _ hf.1 hf.2]; rfl
 
 /-- with no_new_privs requested the goroutine cannot move between `prctl` and `seccomp` -/
 theorem preInstall_sched_nnp (filter : Filter) (w : World) (hn : filter.noNewPrivs = true) :
     schedStep (preInstall filter w) = preInstall filter w := by
   apply schedStep_locked
-  rw [preInstall_nnp _ _ hn]
-  simp [lockOSThread]
+  cases ha : w.nnpAvailable
+  · rw [preInstall_fault _ _ hn ha]; simp [lockOSThread]
+  · rw [preInstall_nnp _ _ hn ha]; simp [lockOSThread]
 
 theorem atReturn_thr (filter : Filter) (w : World) : (atReturn filter w).thr = w.thr := by
   unfold atReturn; split <;> rfl
@@ -149,7 +191,8 @@ theorem cls_wrapped_of_ne_nil (m : String) (e : GoErr) (he : e ≠ GoErr.nil) : 
     cases inner.cls <;> rfl
 
 /-- `gen_loadFilter_prog` with the messages spelled out, and their observable class -/
-theorem gen_loadFilter_prog' (U : Unsupported) (filter : Filter) (p : Prog) (hp : filter.policy = .prog p) (w : World) :
+theorem gen_loadFilter_prog' (U : Unsupported) (filter : Filter) (p : Prog) (hp : filter.policy = .prog p) (w : World)
+    (hnf : ¬ nnpFault filter w) :
     Gen.loadFilter U filter w =
       (let r := Gen.seccomp U 1 filter.flag (mkFprog (.prog p)) (preInstall filter w)
        (if r.1 ≠ GoErr.nil then loadMsg r.1 else GoErr.nil, atReturn filter r.2)) ∧
@@ -159,7 +202,12 @@ theorem gen_loadFilter_prog' (U : Unsupported) (filter : Filter) (p : Prog) (hp 
   simp only [hp, policyAssemble, bpfAssemble, sockFilter, ne_eq, not_true_eq_false, if_false, preInstall, atReturn,
     loadMsg]
   by_cases hn : filter.noNewPrivs = true
-  · simp only [hn, if_true, gen_setNoNewPrivs, not_true_eq_false, if_false]
+  · have ha : w.nnpAvailable = true := by
+      cases h : w.nnpAvailable
+      · exact absurd ⟨hn, h⟩ hnf
+      · rfl
+    simp only [hn, if_true, gen_setNoNewPrivs, show (lockOSThread w).nnpAvailable = w.nnpAvailable from rfl, ha,
+      not_true_eq_false, if_false]
     generalize Gen.seccomp U 1 filter.flag (mkFprog (PolicyOutcome.prog p)) (sysPrctl 38 1 0 0 0 (lockOSThread w)).2.2 = r
     obtain ⟨err, w2⟩ := r
     simp only
@@ -209,11 +257,31 @@ theorem gen_loadFilter_eq_spec (U : Unsupported) (filter : Filter) (w : World) :
     unfold Gen.loadFilter LoaderSpec.load
     simp [hpol, policyAssemble, bpfAssemble, GoErr.cls]
   | prog p =>
-    obtain ⟨heq, hcls⟩ := gen_loadFilter_prog' U filter p hpol w
+    by_cases hf : nnpFault filter w
+    · rw [gen_loadFilter_fault U filter p hpol w hf]
+      unfold LoaderSpec.load
+      have h0 : (sysPrctl PR_SET_NO_NEW_PRIVS 1 0 0 0 (lockOSThread w)) =
+          (0, EINVAL, { lockOSThread w with log := .prctl w.cur 38 1 0 0 0 :: w.log }) := by
+        have := sysPrctl_nnp_fault (lockOSThread w) hf.2
+        rw [lockOSThread_sched] at this
+        exact this
+      simp only [hpol, h0, hf.1, true_and, atReturn, if_true, preInstall_fault _ _ hf.1 hf.2, GoErr.cls]
+      simp [EINVAL]
+    have hspec : ¬ (filter.noNewPrivs = true ∧ (sysPrctl PR_SET_NO_NEW_PRIVS 1 0 0 0 (lockOSThread w)).2.1 ≠ 0) := by
+      rintro ⟨hn, he⟩
+      have ha : w.nnpAvailable = true := by
+        cases h : w.nnpAvailable
+        · exact absurd ⟨hn, h⟩ hf
+        · rfl
+      have := sysPrctl_nnp (lockOSThread w) ha
+      simp only [PR_SET_NO_NEW_PRIVS] at he
+      rw [this] at he
+      exact he rfl
+    obtain ⟨heq, hcls⟩ := gen_loadFilter_prog' U filter p hpol w hf
     rw [heq]
     simp only
     unfold LoaderSpec.load
-    simp only [hpol]
+    simp only [hpol, if_neg hspec]
     have hw : (Gen.seccomp U 1 filter.flag (mkFprog (.prog p)) (preInstall filter w)).2 =
         (sysSeccomp 1 filter.flag (mkFprog (.prog p)) (preInstall filter w)).2.2 := gen_seccomp_world _ _ _ _ _
     have hc := gen_seccomp_cls U filter.flag (mkFprog (.prog p)) (preInstall filter w)
